@@ -139,6 +139,9 @@ struct Case {
     fhm: bool,
     nf: usize,
     progs: Vec<Vec<Op>>,
+    /// lock probe: after the schedule, release this thread although (by the parking points) it
+    /// waits for the inode-map lock another thread holds, and see whether it really blocks
+    probe: Option<usize>,
 }
 
 struct RunOut {
@@ -149,9 +152,12 @@ struct RunOut {
     choices: Vec<Vec<usize>>,
     findings: Vec<(String, String)>,
     deadlock: bool,
+    /// after each step taken: per-thread paths so far + the threads blocked on the lock (probe points)
+    blocked: Vec<(String, Vec<usize>)>,
 }
 
 const STEP_TIMEOUT: Duration = Duration::from_secs(60);
+const PROBE_WAIT: Duration = Duration::from_millis(60);
 
 /// replay one schedule; `sched` may contain disabled/finished thread ids (skipped, printed "-")
 fn run_case(case: &Case, sched: &[usize], root: &PathBuf) -> RunOut {
@@ -227,6 +233,8 @@ fn run_case(case: &Case, sched: &[usize], root: &PathBuf) -> RunOut {
     let mut seen: Vec<u64> = vec![];
     let mut taken = vec![];
     let mut choices = vec![];
+    let mut blocked: Vec<(String, Vec<usize>)> = vec![];
+    let mut paths: Vec<Vec<&'static str>> = vec![vec![]; n];
     let mut step = |t: usize, trace: &mut Vec<String>, seen: &mut Vec<u64>, deadlock: &mut bool| -> bool {
         let mut g = sh.m.lock().unwrap();
         if t >= n || !enabled(&g, t) {
@@ -253,6 +261,9 @@ fn run_case(case: &Case, sched: &[usize], root: &PathBuf) -> RunOut {
             TState::Done => "D".into(),
             TState::Running => "R?".into(),
         });
+        paths[t].push(match g.st[t] { TState::Parked(p) => point_name(p), TState::Done => "D", TState::Running => "R?" });
+        let bl: Vec<usize> = (0..n).filter(|x| matches!(g.st[*x], TState::Parked(_)) && !enabled(&g, *x)).collect();
+        blocked.push((paths.iter().map(|p| p.join(".")).collect::<Vec<_>>().join("|"), bl));
         if g.results[t].len() > nres {
             let ino = g.results[t].last().unwrap().1;
             if !seen.contains(&ino) {
@@ -269,9 +280,75 @@ fn run_case(case: &Case, sched: &[usize], root: &PathBuf) -> RunOut {
             }
         }
     }
+    // ---- lock probe + free completion (no lock assumption, no model trace)
+    let mut probe_status: Option<String> = None;
+    if let (Some(k), false) = (case.probe, deadlock) {
+        let st = {
+            let mut g = sh.m.lock().unwrap();
+            if k >= n || g.st[k] == TState::Done {
+                "done".to_string()
+            } else if enabled(&g, k) {
+                "enabled".to_string()
+            } else {
+                let e0 = g.epoch[k];
+                g.go[k] = true;
+                sh.cv.notify_all();
+                let deadline = std::time::Instant::now() + PROBE_WAIT;
+                while g.epoch[k] == e0 {
+                    let now = std::time::Instant::now();
+                    if now >= deadline {
+                        break;
+                    }
+                    let (g2, _) = sh.cv.wait_timeout(g, deadline - now).unwrap();
+                    g = g2;
+                }
+                if g.epoch[k] == e0 {
+                    "held".to_string()
+                } else {
+                    format!("progress:{}", match g.st[k] { TState::Parked(p) => point_name(p), TState::Done => "D", TState::Running => "R?" })
+                }
+            }
+        };
+        probe_status = Some(st);
+        // free completion: release whatever is parked; a thread that does not come back within
+        // PROBE_WAIT is blocked on a real lock and comes back by itself later
+        let t0 = std::time::Instant::now();
+        let mut last = n - 1;
+        loop {
+            let mut g = sh.m.lock().unwrap();
+            if g.st.iter().all(|s| *s == TState::Done) {
+                break;
+            }
+            if t0.elapsed() > Duration::from_secs(20) {
+                deadlock = true;
+                break;
+            }
+            // round robin (a retry loop of one thread must not starve the thread it waits for)
+            match (1..=n).map(|d| (last + d) % n).find(|t| matches!(g.st[*t], TState::Parked(_)) && !g.go[*t]) {
+                Some(t) => {
+                    last = t;
+                    let e0 = g.epoch[t];
+                    g.go[t] = true;
+                    sh.cv.notify_all();
+                    let deadline = std::time::Instant::now() + PROBE_WAIT;
+                    while g.epoch[t] == e0 {
+                        let now = std::time::Instant::now();
+                        if now >= deadline {
+                            break;
+                        }
+                        let (g2, _) = sh.cv.wait_timeout(g, deadline - now).unwrap();
+                        g = g2;
+                    }
+                }
+                None => {
+                    let _ = sh.cv.wait_timeout(g, Duration::from_millis(20)).unwrap();
+                }
+            }
+        }
+    }
     // completion: lowest-numbered enabled thread first
     let mut order = vec![];
-    while !deadlock {
+    while !deadlock && probe_status.is_none() {
         let next = {
             let g = sh.m.lock().unwrap();
             (0..n).find(|t| enabled(&g, *t))
@@ -363,6 +440,11 @@ fn run_case(case: &Case, sched: &[usize], root: &PathBuf) -> RunOut {
         findings.push((format!("C09:deadlock:{}", g.st.iter().map(|s| match s { TState::Parked(p) => point_name(*p), TState::Done => "D", TState::Running => "RUN" }).collect::<Vec<_>>().join("+")), "a released thread neither reached its next yield point nor finished".into()));
     }
     drop(g);
+    if let Some(ps) = &probe_status {
+        let line = format!("tr={} probe={}", trace.join(","), ps);
+        let _ = std::fs::remove_dir_all(root);
+        return RunOut { line, taken, choices, findings, deadlock, blocked };
+    }
     let line = format!(
         "tr={} res={} fin={} sz={},{} drain={} done={}",
         trace.join(","),
@@ -374,24 +456,25 @@ fn run_case(case: &Case, sched: &[usize], root: &PathBuf) -> RunOut {
         if all_done { 1 } else { 0 }
     );
     let _ = std::fs::remove_dir_all(root);
-    RunOut { line, taken, choices, findings, deadlock }
+    RunOut { line, taken, choices, findings, deadlock, blocked }
 }
 
 fn case_line(id: usize, case: &Case, sched: &[usize]) -> String {
     format!(
-        "case={} cfg=hi:{} fhm={} nf={} thr={} sched={}",
+        "case={} cfg=hi:{} fhm={} nf={} thr={} sched={}{}",
         id,
         case.hi as u8,
         case.fhm as u8,
         case.nf,
         case.progs.iter().map(|p| show_prog(p)).collect::<Vec<_>>().join("|"),
-        sched.iter().map(|x| x.to_string()).collect::<Vec<_>>().join(",")
+        sched.iter().map(|x| x.to_string()).collect::<Vec<_>>().join(","),
+        match case.probe { Some(k) => format!(" probe={}", k), None => String::new() }
     )
 }
 
 fn parse_case(line: &str) -> (String, Case, Vec<usize>) {
     let mut id = "0".to_string();
-    let mut c = Case { hi: false, fhm: false, nf: 2, progs: vec![] };
+    let mut c = Case { hi: false, fhm: false, nf: 2, progs: vec![], probe: None };
     let mut sched = vec![];
     for t in line.split(' ') {
         if let Some(v) = t.strip_prefix("case=") {
@@ -406,14 +489,22 @@ fn parse_case(line: &str) -> (String, Case, Vec<usize>) {
             c.progs = v.split('|').map(parse_prog).collect();
         } else if let Some(v) = t.strip_prefix("sched=") {
             sched = v.split(',').filter_map(|x| x.parse().ok()).collect();
+        } else if let Some(v) = t.strip_prefix("probe=") {
+            c.probe = v.parse().ok();
         }
     }
     (id, c, sched)
 }
 
+thread_local! { static PROP: std::cell::RefCell<String> = std::cell::RefCell::new("C09".into()); }
+
 fn emit(out: &mut Out, line: &str, r: &RunOut) {
     for (k, what) in &r.findings {
-        let v = serde_json::json!({"prop": "C09", "key": k, "case": line, "what": what});
+        // run for C08 (a history of requests may be a concurrent one) the same findings are
+        // reported under C08:conc:*
+        let prop = PROP.with(|p| p.borrow().clone());
+        let k = if prop == "C08" { k.replacen("C09:", "C08:conc:", 1) } else { k.clone() };
+        let v = serde_json::json!({"prop": prop, "key": k, "case": line, "what": what});
         writeln!(out.oracle, "{}", v).unwrap();
         out.n_oracle += 1;
     }
@@ -434,6 +525,11 @@ fn emit(out: &mut Out, line: &str, r: &RunOut) {
 
 fn main() {
     let a = args();
+    if let Some(p) = a.get("prop") {
+        if p == "C08" {
+            PROP.with(|x| *x.borrow_mut() = p.clone());
+        }
+    }
     let mut out = Out::new(a.get("out").map(|s| s.as_str()).unwrap_or("/verif/.work/conc"));
     let tmp = PathBuf::from(format!("/verif/.work/conc-tmp/{}", std::process::id()));
     let _ = std::fs::remove_dir_all(&tmp);
@@ -478,7 +574,7 @@ fn main() {
             }
             progs.push(p);
         }
-        let case = Case { hi: k % 2 == 1, fhm: k % 4 >= 2, nf, progs };
+        let case = Case { hi: k % 2 == 1, fhm: k % 4 >= 2, nf, progs, probe: None };
         let sl = r.below(40) as usize;
         let sched: Vec<usize> = (0..sl)
             .map(|_| {
@@ -504,12 +600,15 @@ fn main() {
             ("lookup;forget||lookup||forget", vec![vec![Op::Lookup(0), Op::ForgetFile(0, 1)], vec![Op::Lookup(0)], vec![Op::ForgetFile(0, 2)]]),
             ("lookup;forget||lookup;forget||lookup", vec![vec![Op::Lookup(0), Op::ForgetFile(0, 1)], vec![Op::Lookup(0), Op::ForgetFile(0, 1)], vec![Op::Lookup(0)]]),
         ];
+        let maxprobes: usize = a.get("probes").and_then(|s| s.parse().ok()).unwrap_or(120);
+        let mut probe_sigs: std::collections::BTreeSet<String> = Default::default();
+        let mut probes: Vec<(Case, Vec<usize>)> = vec![];
         for (si, (name, progs)) in sets.into_iter().enumerate() {
             if si >= exhaustive {
                 break;
             }
             for hi in [false, true] {
-                let case = Case { hi, fhm: false, nf: 1, progs: progs.clone() };
+                let case = Case { hi, fhm: false, nf: 1, progs: progs.clone(), probe: None };
                 // stateless DFS over enabled choices
                 let mut prefix: Vec<usize> = vec![];
                 let mut count = 0usize;
@@ -524,6 +623,14 @@ fn main() {
                     let line = case_line(id, &case, &ro.taken);
                     emit(&mut out, &line, &ro);
                     out.stat(&format!("exhaustive:{}:hi{}", name, hi as u8));
+                    // lock-probe points: states (per-thread paths) in which a thread waits for the lock
+                    for (k, (sig, bl)) in ro.blocked.iter().enumerate() {
+                        for b in bl {
+                            if probe_sigs.insert(format!("{}:{}:{}#{}", si, hi as u8, sig, b)) && probes.len() < maxprobes * 50 {
+                                probes.push((Case { hi, fhm: false, nf: 1, progs: progs.clone(), probe: Some(*b) }, ro.taken[..=k].to_vec()));
+                            }
+                        }
+                    }
                     // next schedule: the longest prefix of `taken` whose last choice can be raised
                     let mut k = ro.taken.len();
                     let mut next: Option<Vec<usize>> = None;
@@ -551,7 +658,25 @@ fn main() {
                 }
             }
         }
-    }
+            // ---- lock probes: the scheduler's knowledge of who holds the inode-map lock (from the
+        // parking points) is itself checked: a thread that waits for the lock is released anyway
+        // and must not move while the holder is parked inside its critical section.  The model
+        // answers `held` for the same state.  The run is then completed without any lock
+        // assumption and judged by the ledger oracles.
+        // evenly spread over the collected points
+        let stride = std::cmp::max(1, probes.len() / std::cmp::max(1, maxprobes));
+        for (pi, (case, sched)) in probes.iter().enumerate() {
+            if pi % stride != 0 {
+                continue;
+            }
+            id += 1;
+            let line = case_line(id, case, sched);
+            fbrh::util::crumb(&line);
+            let ro = run_case(case, sched, &root);
+            out.stat(&format!("lock-probe:{}", ro.line.rsplit("probe=").next().unwrap_or("?").split(':').next().unwrap_or("?")));
+            emit(&mut out, &line, &ro);
+        }
+}
     out.finish();
     let _ = std::fs::remove_dir_all(&tmp);
 }
